@@ -22,3 +22,18 @@ Theorem C17_bytes_selection_appends : forall v ps m pre, wfb v = true ->
   select_w (enc v) ps m pre = shift_result pre (select_w (enc v) ps m []).
 Proof. exact select_w_frame. Qed.
 Print Assumptions C17_bytes_selection_appends.
+
+(* ---- BEGIN edit2: the byte editors of EditWalk2.v (object_insert / object_delete / object_pick / strip_nulls /
+   delete_by_keypath) on encodings: the bytes already in the buffer stay, what is appended does not depend on them,
+   an error appends nothing ---- *)
+From JB Require Import DispatchProofs EditWalk2 EditWalk2Proofs.
+Theorem C17_bytes_edit2_appends : forall v, wfb v = true -> top_ok v -> forall buf,
+  (forall ks, object_delete_w (enc v) ks buf = res_map (app buf) (object_delete_w (enc v) ks [])) /\
+  (forall ks, object_pick_w (enc v) ks buf = res_map (app buf) (object_pick_w (enc v) ks [])) /\
+  strip_nulls_w (enc v) buf = res_map (app buf) (strip_nulls_w (enc v) []) /\
+  (forall ks, delete_by_keypath_w (enc v) ks buf = res_map (app buf) (delete_by_keypath_w (enc v) ks [])) /\
+  (forall x key upd, wfb x = true -> top_ok x -> (forall y, object_insert_t v key x upd = Ok y -> wf_size y = true) ->
+     object_insert_w (enc v) key (enc x) upd buf = res_map (app buf) (object_insert_w (enc v) key (enc x) upd [])).
+Proof. exact edit2_appends. Qed.
+Print Assumptions C17_bytes_edit2_appends.
+(* ---- END edit2 ---- *)
